@@ -367,6 +367,39 @@ def run(rep, tier):
                              "by an ancestor's restore")
                 break
 
+    # ---------------------------------------------------------------- WIDTH
+    rw = rep.rule("C11.WIDTH", 1,
+                  "the bookkeeping of the stack is kept in usize throughout: no operation of Stack converts a length or a "
+                  "count with `as` (a narrowing cast wraps silently - a snapshot taken above 2^32 elements records the height "
+                  "modulo 2^32 and restore truncates to it), and the snapshot records are declared over usize")
+    def int_casts(body):
+        return [x for x in walk(body) if kind(x) == "Cast" and str(x.get("ty", "")) in (
+            "u8", "u16", "u32", "i8", "i16", "i32")]        # narrower than usize on every supported target
+    probe = {"k": "Block", "stmts": [], "expr": {"k": "Cast", "ty": "u32", "e": {"k": "Path", "res": "local", "id": 1}}}
+    if len(int_casts(probe)) != 1:
+        rw.lost("self-test of the cast detector")
+    else:
+        for name, fn in sorted(methods.items()):
+            rw.instance("casts:" + name, where(fn["body"]))
+            for x in int_casts(fn["body"]):
+                if x.get("exp"):
+                    continue
+                rw.violation("casts:" + name, where(x), "Stack::%s converts `%s` with `as %s`: lengths and counts of the stack "
+                             "are usize; a converted height wraps for tall stacks and the snapshot no longer restores the "
+                             "model's copy" % (name, hirq.expr_text(x["e"])[:40], x.get("ty")))
+        sadt = c.adt(STACK)
+        if sadt is None:
+            rw.lost("struct Stack")
+        else:
+            for fdef in sadt["variants"][0]["fields"]:
+                ty = str(fdef["ty"])
+                if "(" in ty or "usize" in ty:
+                    rw.instance("field:" + fdef["name"], "", ty[:60])
+                    import re as _re
+                    narrow_t = _re.findall(r"\b(u8|u16|u32|i8|i16|i32)\b", ty)
+                    if narrow_t:
+                        rw.violation("field:" + fdef["name"], "", "Stack.%s is declared as %s: heights and counts narrower "
+                                     "than usize wrap for tall stacks" % (fdef["name"], ty[:60]))
     # ---------------------------------------------------------------- NOPANIC
     r4 = rep.rule("C11.NOPANIC", 6, "no operation of Stack contains an explicit panic site (debug assertions excepted)")
     for name, fn in sorted(methods.items()):
